@@ -23,6 +23,8 @@ Qed.
 
 Example first_free_example : first_free 1 [1; 2; 4; 7] = 3.
 Proof. reflexivity. Qed.
+Example first_free_hyp_example : StronglySorted Z.lt [1; 2; 4; 7] /\ (forall c, In c [1; 2; 4; 7] -> 1 <= c).
+Proof. split; [repeat constructor|]. cbn [In]. intros c H. lia. Qed.
 
 (* ================================================================ color_labels *)
 From Centro Require Import Proofs.RelabelC15 Proofs.AccC15 Proofs.NeighborsC15.
